@@ -77,6 +77,8 @@ EW_S = {'add': 'adds', 'sub': 'subs', 'mul': 'scale', 'div': 'divs', 'rem': 'rem
 
 def contracts(unit, im, f):
     """schema: contract for (impl, fn) of the vector family, or None"""
+    if im is None:
+        return None
     st, self_ref = base_type(im.selfty)
     if not re.fullmatch(r'Vector[1-4]', st):
         return None
